@@ -459,11 +459,12 @@ class GroupEffectsMatrix:
             groups = term.groups
             term_slice = self.slices[name]
             term_slice_width = get_slice_width(term_slice)
-            levels_n = len(term.expr.levels) if has_levels else 1
+            # Number of columns the expr has within each group
+            levels_n = term.data.shape[1] // len(groups)
             if term_slice_width != len(groups) * levels_n:  # Has extra groups
-                assert (
-                    term_slice_width == len(groups) + levels_n
-                ), "It should only have one extra group"
+                assert term_slice_width == (len(groups) + 1) * levels_n, (
+                    "It should only have one extra group"
+                )
                 groups = groups + ["__NEW_FACTOR_GROUP__"]
             content = [f"kind: {term.kind}", f"groups: {groups}"]
             if has_levels:
